@@ -404,3 +404,35 @@ M("C16", "tweak-dropped-on-save", "admin/certificate_v1.py",
 M("C16", "v2-quote-custom-data-lowercased-trim", "admin/certificate_v2.py",
   "            \"custom_data\": self.custom_data,\n            \"signature\": self.signature,\n            \"signed_by\": self.signed_by,\n        }\n\n\nclass HSMCertificateV2ElementSGXAttestationKey",
   "            \"custom_data\": self.custom_data[:250],\n            \"signature\": self.signature,\n            \"signed_by\": self.signed_by,\n        }\n\n\nclass HSMCertificateV2ElementSGXAttestationKey")
+
+# ---- C08
+M("C08", "keys-hash-comparison-removed-sgx", "admin/verify_sgx_attestation.py",
+  "    if reported_pubkeys_hash != pubkeys_hash:", "    if reported_pubkeys_hash is None:")
+M("C08", "keys-hash-comparison-removed-ledger", "admin/verify_ledger_attestation.py",
+  "    if reported_pubkeys_hash != pubkeys_hash:", "    if len(reported_pubkeys_hash) != len(pubkeys_hash):")
+M("C08", "message-offsets-shifted", "admin/attestation_utils.py",
+  "    uint8_t ud_value 32\n    uint8_t public_keys_hash 32\n    uint8_t best_block 32",
+  "    uint8_t ud_value 32\n    uint8_t best_block 32\n    uint8_t public_keys_hash 32")
+M("C08", "length-check-lt", "admin/attestation_utils.py",
+  "        if len(value[offset:]) != expected_length:",
+  "        if len(value[offset:]) < expected_length:")
+M("C08", "ui-key-wrong-path", "admin/verify_ledger_attestation.py",
+  "UI_DERIVATION_PATH = \"m/44'/0'/0'/0/0\"", "UI_DERIVATION_PATH = \"m/44'/1'/0'/0/0\"")
+M("C08", "unsorted-hashing", "admin/attestation_utils.py",
+  "    pubkeys_hash = hashlib.sha256()\n    for path in sorted(pubkeys_map.keys()):",
+  "    pubkeys_hash = hashlib.sha256()\n    for path in pubkeys_map.keys():")
+M("C08", "revert-regex-fix", "admin/attestation_utils.py",
+  "(5\\\\.[0-9])::", "(5.[0-9])::")
+M("C08", "ui-pubkey-check-removed", "admin/verify_ledger_attestation.py",
+  "    if ui_public_key != expected_ui_public_key:", "    if ui_public_key is None:")
+M("C08", "root-self-validation-skipped", "admin/verify_sgx_attestation.py",
+  "        if not root_of_trust.is_valid(root_of_trust):", "        if False:")
+M("C08", "legacy-length-check-removed", "admin/verify_ledger_attestation.py",
+  "        reported_pubkeys_hash = signer_message[offset:]\n",
+  "        reported_pubkeys_hash = signer_message[offset:offset + PUBLIC_KEYS_HASH_LENGTH]\n        signer_message = signer_message[:offset + PUBLIC_KEYS_HASH_LENGTH]\n")
+M("C08", "hash-compressed-keys", "admin/attestation_utils.py",
+  "        pubkeys_hash.update(pubkey.serialize(compressed=False))",
+  "        pubkeys_hash.update(pubkey.serialize(compressed=True))")
+M("C08", "iteration-little-endian", "admin/verify_ledger_attestation.py",
+  "    signer_iteration = int.from_bytes(signer_iteration, byteorder='big', signed=False)",
+  "    signer_iteration = int.from_bytes(signer_iteration, byteorder='little', signed=False)")
